@@ -2,7 +2,7 @@
 # like seed_eval.sh but without touching /repo: the checks import the patched scratch copy through PYTHONPATH
 WT=$1; ID=$2; TIER=$3; shift 3
 OUT=/verif/seeded/$ID; mkdir -p $OUT
-cp $WT/patch.diff $OUT/patch.diff; cp $WT/demo.py $OUT/demo.py; cp $WT/meta.json $OUT/meta_agent.json 2>/dev/null
+[ "$WT" = "$OUT" ] || { cp $WT/patch.diff $OUT/patch.diff; cp $WT/demo.py $OUT/demo.py; cp $WT/meta.json $OUT/meta_agent.json 2>/dev/null; }
 SCR=/var/tmp/fsv/seed_$ID; rm -rf $SCR; mkdir -p $SCR; cp -r /repo/src /repo/tests $SCR/
 ( cd $SCR && patch -p1 -s < $OUT/patch.diff ) || { echo "PATCH FAILED"; exit 3; }
 T=$(cd $SCR && PYTHONPATH=$SCR/src /venv/bin/python -m pytest -q -p no:cacheprovider tests 2>&1 | tail -1)
